@@ -354,13 +354,49 @@ def _names_in(n: ast.AST) -> set[str]:
     return {x.id for x in ast.walk(n) if isinstance(x, ast.Name)}
 
 
+def inline_comp_locals(stmts: list[ast.stmt]) -> list[ast.stmt]:
+    """`xs = [e for …]; … sum(xs) …`  ->  `… sum(e for …) …`: a local bound ONCE (top-level simple assignment) to a list
+    comprehension / generator expression and read ONCE, as the sole argument of `sum`/`max`/`min`, is replaced by its
+    definition.  The comprehensions of the translated subset are pure (attribute reads and arithmetic), so moving the
+    evaluation point does not change the result; anything else is left alone (and then rejected by the translator)."""
+    stmts = list(stmts)
+    changed = True
+    while changed:
+        changed = False
+        for i, st in enumerate(stmts):
+            if not (isinstance(st, ast.Assign) and len(st.targets) == 1 and isinstance(st.targets[0], ast.Name)
+                    and isinstance(st.value, (ast.ListComp, ast.GeneratorExp))):
+                continue
+            name = st.targets[0].id
+            stores = [x for s2 in stmts for x in ast.walk(s2)
+                      if isinstance(x, ast.Name) and x.id == name and isinstance(x.ctx, (ast.Store, ast.Del))]
+            if len(stores) != 1:
+                continue
+            rest = stmts[i + 1:]
+            uses = [c for s2 in rest for c in ast.walk(s2)
+                    if isinstance(c, ast.Call) and isinstance(c.func, ast.Name) and c.func.id in ("sum", "max", "min")
+                    and len(c.args) == 1 and not c.keywords and isinstance(c.args[0], ast.Name) and c.args[0].id == name]
+            reads = [x for s2 in stmts for x in ast.walk(s2)
+                     if isinstance(x, ast.Name) and x.id == name and isinstance(x.ctx, ast.Load)]
+            if len(uses) != 1 or len(reads) != 1:
+                continue
+            if any(isinstance(x, (ast.For, ast.While)) and any(uses[0] is y for y in ast.walk(x)) for s2 in rest for x in ast.walk(s2)):
+                continue                        # used inside a loop: evaluated more than once
+            comp = st.value
+            uses[0].args[0] = ast.GeneratorExp(elt=comp.elt, generators=comp.generators)
+            del stmts[i]
+            changed = True
+            break
+    return stmts
+
+
 def fold_sum_loops(stmts: list[ast.stmt]) -> list[ast.stmt]:
     """`acc = 0.0 … for t in it: [for u in it2:] acc += e`  ->  `acc = sum(e for t in it [for u in it2])`.
 
     Only when nothing between the initialisation and the loop mentions `acc`, the loop body is that single `+=`
     (no filter, no else) and `e` / the iterables do not mention `acc`: then both forms compute the same left fold
     starting at zero.  Anything else is left alone (and later refused by the translator)."""
-    out = list(stmts)
+    out = inline_comp_locals(stmts)
     changed = True
     while changed:
         changed = False
